@@ -368,3 +368,133 @@ MUTANTS = [
       "    def _got_write_answer(self, answer, writer, started):", "    def _got_write_answerX(self, answer, writer, started):",
       "ANALYSIS-ERROR"),
 ]
+
+# ---- "refactor with a slip" C12-I: the test-and-write vector assembly of both write proxies extracted into the
+# module-level helpers checkstring_to_testvs() / make_tw_vectors(shnum, datavs, testvs=None)
+_TWH_HELPERS = """NEW_SHARE_TESTV = %(mne)s
+
+def checkstring_to_testvs(checkstring):
+%(cs_body)s
+
+def make_tw_vectors(shnum, datavs, testvs=None):
+    if %(fallback_test)s:
+        testvs = [NEW_SHARE_TESTV]
+    return {shnum: (testvs, datavs, None)}
+
+def pack_offsets(verification_key_length, signature_length,
+"""
+_TWH_CS_BODY = '    if checkstring == b"":\n        return []\n    return [(0, len(checkstring), checkstring)]'
+_TWH_SDMF_SET_OLD = """        if checkstring == b"":
+            # An empty checkstring means "the share must still be empty".
+            # A zero-length test vector would match any contents; leave
+            # _testvs empty so finish_publishing uses (0, 1, b"") instead,
+            # as MDMFSlotWriteProxy.set_checkstring does.
+            self._testvs = []
+        else:
+            self._testvs = [(0, len(checkstring), checkstring)]
+"""
+_TWH_SDMF_FIN_OLD = """        if not self._testvs:
+            # Our caller has not provided us with another checkstring
+            # yet, so we assume that we are writing a new share, and set
+            # a test vector that will only allow a new share to be written.
+            self._testvs = []
+            self._testvs.append(tuple([0, 1, b""]))
+
+        tw_vectors = {}
+        tw_vectors[self.shnum] = (self._testvs, datavs, None)
+"""
+_TWH_MDMF_SET_OLD = """        if checkstring == b"":
+            # We special-case this, since len("") = 0, but we need
+            # length of 1 for the case of an empty share to work on the
+            # storage server, which is what a checkstring that is the
+            # empty string means.
+            self._testvs = []
+        else:
+            self._testvs = []
+            self._testvs.append((0, len(checkstring), checkstring))
+"""
+_TWH_MDMF_W1_OLD = """        tw_vectors = {}
+        if not self._testvs:
+            # Make sure we will only successfully write if the share didn't
+            # previously exist.
+            self._testvs = []
+            self._testvs.append(tuple([0, 1, b""]))
+        if not self._written:
+"""
+_TWH_MDMF_W2_OLD = """            on_success = _first_write
+        tw_vectors[self.shnum] = (self._testvs, datavs, None)
+"""
+
+
+def tw_helper_refactor(mid, expect, fallback_test="not testvs", mne='(0, 1, b"")', cs_body=_TWH_CS_BODY,
+                       call="make_tw_vectors(self.shnum, datavs, self._testvs)"):
+    """The C12-I refactor of mutable/layout.py on the current source; the keyword arguments vary the one detail."""
+    helpers = _TWH_HELPERS % {"mne": mne, "cs_body": cs_body, "fallback_test": fallback_test}
+    return M(mid, LAY, "def pack_offsets(verification_key_length, signature_length,\n", helpers, expect, edits=[
+        (LAY, _TWH_SDMF_SET_OLD, "        self._testvs = checkstring_to_testvs(checkstring)\n"),
+        (LAY, _TWH_SDMF_FIN_OLD, "        tw_vectors = %s\n" % call),
+        (LAY, _TWH_MDMF_SET_OLD, "        self._testvs = checkstring_to_testvs(checkstring)\n"),
+        (LAY, _TWH_MDMF_W1_OLD, "        if not self._written:\n"),
+        (LAY, _TWH_MDMF_W2_OLD, "            on_success = _first_write\n        tw_vectors = %s\n" % call),
+    ])
+
+
+MUTANTS += [
+    tw_helper_refactor("benign-refactor-tw-vector-helpers-faithful", None),
+    tw_helper_refactor("benign-refactor-tw-vector-helpers-keyword-call", None,
+                       call="make_tw_vectors(testvs=self._testvs, shnum=self.shnum, datavs=datavs)"),
+    tw_helper_refactor("refactor-tw-vector-helpers-fallback-only-for-none", "C12.1", fallback_test="testvs is None"),
+    tw_helper_refactor("refactor-tw-vector-helpers-fallback-zero-length", "C12.1", mne='(0, 0, b"")'),
+    tw_helper_refactor("refactor-tw-vector-helpers-default-testvs", "C12.1",
+                       call="make_tw_vectors(self.shnum, datavs)"),
+    tw_helper_refactor("refactor-tw-vector-helpers-wrong-share", "C12.1",
+                       call="make_tw_vectors(0, datavs, self._testvs)"),
+    tw_helper_refactor("refactor-tw-vector-helpers-empty-checkstring-vector", "C12.15",
+                       cs_body="    return [(0, len(checkstring), checkstring)]"),
+    tw_helper_refactor("refactor-tw-vector-helpers-checkstring-prefix-only", "C12.2",
+                       cs_body='    if checkstring == b"":\n        return []\n    return [(0, 1, checkstring[:1])]'),
+]
+
+# ---- "refactor with a slip" C47-I: the surprise-share scan (any(..) form) and the testv-failure logging of
+# Publish._got_write_answer extracted into the methods _check_for_surprise_shares / _log_testv_failure
+_SSH_SCAN_OLD = '        surprise_shares = set(read_data.keys()) - set([writer.shnum])\n\n        # We need to remove from surprise_shares any shares that we are\n        # knowingly also writing to that server from other writers.\n\n        # TODO: Precompute this.\n        shares = []\n        for shnum, writers in self.writers.items():\n            shares.extend([x.shnum for x in writers if x.server == server])\n        known_shnums = set(shares)\n        surprise_shares -= known_shnums\n        self.log("found the following surprise shares: %s" %\n                 str(surprise_shares))\n\n        # Now surprise shares contains all of the shares that we did not\n        # expect to be there.\n\n        surprised = False\n        for shnum in surprise_shares:\n            # read_data is a dict mapping shnum to checkstring (SIGNED_PREFIX)\n            checkstring = read_data[shnum][0]\n            # What we want to do here is to see if their (seqnum,\n            # roothash, salt) is the same as our (seqnum, roothash,\n            # salt), or the equivalent for MDMF. The best way to do this\n            # is to store a packed representation of our checkstring\n            # somewhere, then not bother unpacking the other\n            # checkstring.\n            if checkstring == self._checkstring:\n                # they have the right share, somehow\n\n                if (server,shnum) in self.goal:\n                    # and we want them to have it, so we probably sent them a\n                    # copy in an earlier write. This is ok, and avoids the\n                    # #546 problem.\n                    continue\n\n                # They aren\'t in our goal, but they are still for the right\n                # version. Somebody else wrote them, and it\'s a convergent\n                # uncoordinated write. Pretend this is ok (don\'t be\n                # surprised), since I suspect there\'s a decent chance that\n                # we\'ll hit this in normal operation.\n                continue\n\n            else:\n                # the new shares are of a different version\n                if server in self._servermap.get_reachable_servers():\n                    # we asked them about their shares, so we had knowledge\n                    # of what they used to have. Any surprising shares must\n                    # have come from someone else, so UCW.\n                    surprised = True\n                else:\n                    # we didn\'t ask them, and now we\'ve discovered that they\n                    # have a share we didn\'t know about. This indicates that\n                    # mapupdate should have wokred harder and asked more\n                    # servers before concluding that it knew about them all.\n\n                    # signal UCW, but make sure to ask this server next time,\n                    # so we\'ll remember to update it if/when we retry.\n                    surprised = True\n                    # TODO: ask this server next time. I don\'t yet have a good\n                    # way to do this. Two insufficient possibilities are:\n                    #\n                    # self._servermap.add_new_share(server, shnum, verinfo, now)\n                    #  but that requires fetching/validating/parsing the whole\n                    #  version string, and all we have is the checkstring\n                    # self._servermap.mark_bad_share(server, shnum, checkstring)\n                    #  that will make publish overwrite the share next time,\n                    #  but it won\'t re-query the server, and it won\'t make\n                    #  mapupdate search further\n\n                    # TODO later: when publish starts, do\n                    # servermap.get_best_version(), extract the seqnum,\n                    # subtract one, and store as highest-replaceable-seqnum.\n                    # Then, if this surprise-because-we-didn\'t-ask share is\n                    # of highest-replaceable-seqnum or lower, we\'re allowed\n                    # to replace it: send out a new writev (or rather add it\n                    # to self.goal and loop).\n\n                surprised = True\n\n        if surprised:\n            self.log("they had shares %s that we didn\'t know about" %\n                     (list(surprise_shares),),\n                     parent=lp, level=log.WEIRD, umid="un9CSQ")\n            self.surprised = True\n\n'
+_SSH_LOG_OLD = '            # use the checkstring to add information to the log message\n            unknown_format = False\n            for (shnum,readv) in list(read_data.items()):\n                checkstring = readv[0]\n                version = get_version_from_checkstring(checkstring)\n                if version == MDMF_VERSION:\n                    (other_seqnum,\n                     other_roothash) = unpack_mdmf_checkstring(checkstring)\n                elif version == SDMF_VERSION:\n                    (other_seqnum,\n                     other_roothash,\n                     other_IV) = unpack_sdmf_checkstring(checkstring)\n                else:\n                    unknown_format = True\n                expected_version = self._servermap.version_on_server(server,\n                                                                     shnum)\n                if expected_version:\n                    (seqnum, root_hash, IV, segsize, datalength, k, N, prefix,\n                     offsets_tuple) = expected_version\n                    msg = ("somebody modified the share on us:"\n                           " shnum=%d: I thought they had #%d:R=%r," %\n                           (shnum,\n                            seqnum, base32.b2a(root_hash)[:4]))\n                    if unknown_format:\n                        msg += (" but I don\'t know how to read share"\n                                " format %d" % version)\n                    else:\n                        msg += " but testv reported #%d:R=%r" % \\\n                               (other_seqnum, base32.b2a(other_roothash)[:4])\n                    self.log(msg, parent=lp, level=log.NOISY)\n                # if expected_version==None, then we didn\'t expect to see a\n                # share on that server, and the \'surprise_shares\' clause\n                # above will have logged it.\n'
+_SSH_HELPERS_PRE = '    def _check_for_surprise_shares(self, writer, read_data, lp):\n        """\n        Look at the shares that a server reported back alongside the answer\n        to one of our writes. Return True if the server holds a share, of a\n        version other than the one we are publishing, that we did not expect\n        it to hold.\n        """\n        server = writer.server\n        surprise_shares = set(read_data.keys()) - set([writer.shnum])\n\n\n        known_shnums = set(x.shnum\n                           for writers in self.writers.values()\n                           for x in writers\n                           if x.server == server)\n        surprise_shares -= known_shnums\n        self.log("found the following surprise shares: %s" %\n                 str(surprise_shares))\n\n'
+_SSH_ANY = '        surprised = any(read_data[shnum][0] != self._checkstring\n                        for shnum in surprise_shares)\n'
+_SSH_HELPERS_POST = '        if surprised:\n            self.log("they had shares %s that we didn\'t know about" %\n                     (list(surprise_shares),),\n                     parent=lp, level=log.WEIRD, umid="un9CSQ")\n        return surprised\n\n\n    def _log_testv_failure(self, server, read_data, lp):\n        """\n        One of our writes was refused. Use the checkstrings that the server\n        sent back to add information to the log.\n        """\n        unknown_format = False\n        for (shnum,readv) in list(read_data.items()):\n            checkstring = readv[0]\n            version = get_version_from_checkstring(checkstring)\n            if version == MDMF_VERSION:\n                (other_seqnum,\n                 other_roothash) = unpack_mdmf_checkstring(checkstring)\n            elif version == SDMF_VERSION:\n                (other_seqnum,\n                 other_roothash,\n                 other_IV) = unpack_sdmf_checkstring(checkstring)\n            else:\n                unknown_format = True\n            expected_version = self._servermap.version_on_server(server,\n                                                                 shnum)\n            if not expected_version:\n                continue\n            (seqnum, root_hash, IV, segsize, datalength, k, N, prefix,\n             offsets_tuple) = expected_version\n            msg = ("somebody modified the share on us:"\n                   " shnum=%d: I thought they had #%d:R=%r," %\n                   (shnum,\n                    seqnum, base32.b2a(root_hash)[:4]))\n            if unknown_format:\n                msg += (" but I don\'t know how to read share"\n                        " format %d" % version)\n            else:\n                msg += " but testv reported #%d:R=%r" % \\\n                       (other_seqnum, base32.b2a(other_roothash)[:4])\n            self.log(msg, parent=lp, level=log.NOISY)\n\n\n'
+_SSH_FAITHFUL_CALL = ("        if self._check_for_surprise_shares(writer, read_data, lp):\n"
+                      "            self.surprised = True\n\n")
+
+
+def surprise_helper_refactor(mid, expect, call=_SSH_FAITHFUL_CALL, scan=_SSH_ANY, post=_SSH_HELPERS_POST):
+    """The C47-I refactor of mutable/publish.py on the current source; the keyword arguments vary the one detail."""
+    return M(mid, PUB, _SSH_SCAN_OLD, call, expect, edits=[
+        (PUB, _SSH_LOG_OLD, "            self._log_testv_failure(server, read_data, lp)\n"),
+        (PUB, "    def _done(self):\n", _SSH_HELPERS_PRE + scan + post + "    def _done(self):\n"),
+    ])
+
+
+MUTANTS += [
+    surprise_helper_refactor("benign-refactor-surprise-scan-helper-faithful", None),
+    surprise_helper_refactor("benign-refactor-surprise-scan-helper-result-in-local", None,
+                             call="        unexpected = self._check_for_surprise_shares(writer, read_data, lp)\n"
+                                  "        if unexpected:\n            self.surprised = True\n\n"),
+    # the slip of C47-I: the flag is assigned, so a later clean answer forgets an earlier surprise
+    surprise_helper_refactor("refactor-surprise-scan-helper-flag-assigned", "C12.4",
+                             call="        self.surprised = self._check_for_surprise_shares(writer, read_data, lp)\n\n"),
+    # the helper's verdict is only logged, never recorded
+    surprise_helper_refactor("refactor-surprise-scan-helper-result-dropped", "C12.4",
+                             call="        self._check_for_surprise_shares(writer, read_data, lp)\n\n"),
+    # the helper sees the mismatch but reports False
+    surprise_helper_refactor("refactor-surprise-scan-helper-returns-false", "C12.4",
+                             post=_SSH_HELPERS_POST.replace("        return surprised\n", "        return False\n", 1)),
+    # other writers' share numbers are withheld from the scan whichever server they are for
+    surprise_helper_refactor("refactor-surprise-scan-helper-known-shares-of-any-server", "C12.11",
+                             scan=_SSH_ANY.replace("surprise_shares)", "surprise_shares - set(self.writers))", 1)),
+    # only the first byte of the checkstring is compared
+    surprise_helper_refactor("refactor-surprise-scan-helper-compares-other-server-data", "C12.11",
+                             scan=_SSH_ANY.replace("read_data[shnum][0]", "read_data[writer.shnum][0]", 1)),
+    # the scan no longer looks at the checkstrings at all
+    surprise_helper_refactor("refactor-surprise-scan-helper-any-surprise-share-ignored", "C12.4",
+                             scan="        surprised = False\n"),
+]
